@@ -11,6 +11,31 @@ REPO = os.environ.get('VERIF_REPO', '/repo')
 
 
 # ------------------------------------------------------------------ originals
+_REDIR = re.compile(rb'[ \t]*\b(outfile|header-file|header|tables-file)[ \t]*=[ \t]*"[^"\n]*"')
+
+
+def neutralise_redirects(b):
+    """the command line decides where outputs go: drop outfile= / header-file= /
+    tables-file= from the %option lines of a repository file (everything else
+    is left byte for byte)"""
+    out = []
+    for line in b.split(b'\n'):
+        if line.startswith(b'%option') and _REDIR.search(line):
+            line = _REDIR.sub(b'', line)
+            if line.strip() == b'%option':
+                continue
+        out.append(line)
+    return b'\n'.join(out)
+
+
+REDIRECTS = {
+    'scanner': re.compile(rb'outfile|stdout|prefix|c\+\+|-P', re.I),
+    'header': re.compile(rb'header', re.I),
+    'tables': re.compile(rb'tables-file', re.I),
+    'backup': re.compile(rb'$^'),
+}
+
+
 def load_corpus():
     """[(name, bytes)] sorted by name, duplicates (by content) removed"""
     paths = sorted(glob.glob(os.path.join(REPO, 'tests', '*.l')))
@@ -27,7 +52,7 @@ def load_corpus():
     for p in paths:
         try:
             with open(p, 'rb') as f:
-                b = f.read()
+                b = neutralise_redirects(f.read())
         except OSError:
             continue
         h = hashlib.sha256(b).digest()
@@ -234,6 +259,14 @@ def m_huge_name(rng, b):
 def m_huge_line(rng, b):
     n = rng.choice([2047, 2048, 2049, 4096, 8192, 20000, 100000, 400000])
     kind = rng.choice(['alt', 'string', 'action', 'def', 'comment', 'ccl', 'cat', 'sect3', 'optline'])
+    if kind not in ('action', 'comment', 'sect3'):
+        # flex's own scanner is quadratic on some malformed long lines (error recovery retries
+        # at every byte): 100 KB take seconds, 400 KB minutes
+        n = min(n, 100000)
+    if kind in ('alt', 'string', 'cat'):
+        # one NFA state per byte; -Ca lifts the 32000-state limit and DFA construction is
+        # quadratic in the length of a chain: 100000 take minutes (slow, not a hang)
+        n = min(n, 20000)
     first, second = _find_sections(b)
     if kind == 'alt':
         line = b'|'.join([b'a%d' % (i % 97) for i in range(n // 4)]) + b' { }\n'
@@ -264,10 +297,12 @@ def m_huge_line(rng, b):
 
 def m_many_rules(rng, b):
     n = rng.choice([50, 300, 1000, 3000, 8190, 8191, 8192, 9000])
-    kind = rng.choice(['kw', 'kw', 'num', 'sc', 'eof'])
+    kind = rng.choice(['kw', 'single', 'single', 'num', 'sc', 'eof'])
     first, second = _find_sections(b)
     if kind == 'kw':
         body = b''.join(b'kw%dz { return %d; }\n' % (i, i) for i in range(n))
+    elif kind == 'single':
+        body = b'a ;\n' * n
     elif kind == 'num':
         body = b''.join(b'%d ;\n' % i for i in range(n))
     elif kind == 'sc':
@@ -299,8 +334,10 @@ def m_deep_nest(rng, b):
     elif kind == 'brace-action':
         line = b'zz ' + b'{' * n + b'}' * n + b'\n'
     elif kind == 'rep':
-        k = rng.choice([2, 3, 4, 6])
-        line = b'(' * k + b'a' + b'{1,%d})' % rng.choice([10, 50, 200, 1000]) * k + b' { }\n'
+        # (depth, bound) pairs whose DFA stays small or whose NFA exceeds the limit at once;
+        # ((((a{1,10}){1,10}){1,10}){1,10}) is legitimate but takes half a minute
+        k, m = rng.choice([(2, 10), (2, 30), (3, 10), (2, 200), (3, 50), (6, 10)])
+        line = b'(' * k + b'a' + b'{1,%d})' % m * k + b' { }\n'
     elif kind == 'ccl-op':
         line = b'[a-z]' + b'{-}[aeiou]{+}[a-e]' * min(n, 3000) + b' { }\n'
     elif kind == 'defchain':
